@@ -40,9 +40,13 @@ theorem C09_image_skipped (tmTypes : Bytes) (tmMd : List Nat) (allCols : List (W
     let cells : Bytes := (List.zip ((W.selectPresent present allCols).map (·.1)) vals).flatMap
       fun (c, v) => match v with | some x => W.cell c.typ c.md x | none => []
     skipImage (pre ++ (cells ++ rest)) tm presentBm nullBm allCols.length 0 0 pre.length = .ok (pre.length + cells.length) := by
-  sorry
+  intro tm presentBm nullBm cells
+  exact GV.C09R.image_skipped tmTypes tmMd allCols present hp htm vals hok pre rest
 
-/-- decoding an image column by column consumes it exactly and yields, per column of the table, absent / NULL /
+/-
+  ORIGINAL STATEMENT — FALSE as written (refuted below by `C09_image_consumed_refuted`):
+
+/- decoding an image column by column consumes it exactly and yields, per column of the table, absent / NULL /
     the canonical text of the value — with the mapper's names and the table map's types -/
 theorem C09_image_consumed (E : Ext) (allCols : List (W.ColDef × Bool)) (names : List Bytes) (present : List Bool)
     (hp : present.length = allCols.length) (hn : names.length = allCols.length)
@@ -57,8 +61,84 @@ theorem C09_image_consumed (E : Ext) (allCols : List (W.ColDef × Bool)) (names 
     ∃ out, rowColumns E tm ti presentBm nullBm cells allCols.length 0 0 0 = .ok out ∧
       out.length = allCols.length ∧
       ∀ i (hi : i < allCols.length), ∃ c, out[i]? = some c ∧ c.field = names[i]! ∧ c.typ = (allCols[i]).1.typ ∧
+        (present[i]! = false → c.col = .absent)
+
+  Why: `W.ColDef.typ` is an unbounded `Nat`, but the table map stores the type code as ONE BYTE
+  (`types := allCols.map (fun c => UInt8.ofNat c.1.typ)`), and the decoder reports `t.toNat`, i.e. `typ % 256`.
+  For a column that is present and non-NULL, `W.CellOK` pins the type code to a real MySQL code (< 256); for a column
+  that is ABSENT or NULL in this image nothing bounds it.  Counterexample: `allCols = [(⟨300, 0, true⟩, false)]`,
+  `present = [false]`, `vals = []`, `names = [[]]`: the decoder yields `typ := 44` (= 300 % 256), not 300.
+  The corrected statement adds `∀ c ∈ allCols, c.1.typ < 256` (implied by `C15.ColOK` for every column of a
+  written table map).  Nothing else changes.
+-/
+
+/-- decoding an image column by column consumes it exactly and yields, per column of the table, absent / NULL /
+    the canonical text of the value — with the mapper's names and the table map's types
+    (corrected: type codes are bytes) -/
+theorem C09_image_consumed_partial (E : Ext) (allCols : List (W.ColDef × Bool)) (names : List Bytes) (present : List Bool)
+    (hp : present.length = allCols.length) (hn : names.length = allCols.length)
+    (htyp : ∀ c ∈ allCols, c.1.typ < 256)
+    (vals : List (Option W.CellVal)) (hok : ImageOK (W.selectPresent present allCols) vals) :
+    let tm : TableMap := { flags := 0, database := [], name := [], types := allCols.map (fun c => UInt8.ofNat c.1.typ),
+                           canBeNull := ⟨[], 0⟩, metadata := allCols.map (fun c => c.1.md) }
+    let ti : TableInfo := { db := [], table := [], columns := List.zip names (allCols.map (·.2)) }
+    let presentBm : Bitmap := ⟨W.bitmapBytes present, present.length⟩
+    let nullBm : Bitmap := ⟨W.bitmapBytes (vals.map (·.isNone)), vals.length⟩
+    let cells : Bytes := (List.zip ((W.selectPresent present allCols).map (·.1)) vals).flatMap
+      fun (c, v) => match v with | some x => W.cell c.typ c.md x | none => []
+    ∃ out, rowColumns E tm ti presentBm nullBm cells allCols.length 0 0 0 = .ok out ∧
+      out.length = allCols.length ∧
+      ∀ i (hi : i < allCols.length), ∃ c, out[i]? = some c ∧ c.field = names[i]! ∧ c.typ = (allCols[i]).1.typ ∧
         (present[i]! = false → c.col = .absent) := by
-  sorry
+  intro tm ti presentBm nullBm cells
+  obtain ⟨h1, h2⟩ := GV.C09R.expect_props E allCols present names vals hp hn hok.1
+  exact ⟨_, GV.C09R.image_consumed E allCols names present hp hn htyp vals hok, h1, h2⟩
+
+/-- the exact output (stronger than the statement above: also NULL and the canonical text of every value): the
+    column loop returns, per table column, `absent` / `null` / `value (textOf …)` -/
+theorem C09_image_consumed_exact (E : Ext) (allCols : List (W.ColDef × Bool)) (names : List Bytes) (present : List Bool)
+    (hp : present.length = allCols.length) (hn : names.length = allCols.length)
+    (htyp : ∀ c ∈ allCols, c.1.typ < 256)
+    (vals : List (Option W.CellVal)) (hok : ImageOK (W.selectPresent present allCols) vals) :
+    let tm : TableMap := { flags := 0, database := [], name := [], types := allCols.map (fun c => UInt8.ofNat c.1.typ),
+                           canBeNull := ⟨[], 0⟩, metadata := allCols.map (fun c => c.1.md) }
+    let ti : TableInfo := { db := [], table := [], columns := List.zip names (allCols.map (·.2)) }
+    let presentBm : Bitmap := ⟨W.bitmapBytes present, present.length⟩
+    let nullBm : Bitmap := ⟨W.bitmapBytes (vals.map (·.isNone)), vals.length⟩
+    let cells : Bytes := (List.zip ((W.selectPresent present allCols).map (·.1)) vals).flatMap
+      fun (c, v) => match v with | some x => W.cell c.typ c.md x | none => []
+    rowColumns E tm ti presentBm nullBm cells allCols.length 0 0 0 = .ok (GV.C09R.expectCols E allCols present names vals) := by
+  intro tm ti presentBm nullBm cells
+  exact GV.C09R.image_consumed E allCols names present hp hn htyp vals hok
+
+/-- the original statement (no bound on the type codes) does not hold -/
+theorem C09_image_consumed_refuted :
+    ¬ (∀ (E : Ext) (allCols : List (W.ColDef × Bool)) (names : List Bytes) (present : List Bool)
+      (_ : present.length = allCols.length) (_ : names.length = allCols.length)
+      (vals : List (Option W.CellVal)) (_ : ImageOK (W.selectPresent present allCols) vals),
+      let tm : TableMap := { flags := 0, database := [], name := [], types := allCols.map (fun c => UInt8.ofNat c.1.typ),
+                             canBeNull := ⟨[], 0⟩, metadata := allCols.map (fun c => c.1.md) }
+      let ti : TableInfo := { db := [], table := [], columns := List.zip names (allCols.map (·.2)) }
+      let presentBm : Bitmap := ⟨W.bitmapBytes present, present.length⟩
+      let nullBm : Bitmap := ⟨W.bitmapBytes (vals.map (·.isNone)), vals.length⟩
+      let cells : Bytes := (List.zip ((W.selectPresent present allCols).map (·.1)) vals).flatMap
+        fun (c, v) => match v with | some x => W.cell c.typ c.md x | none => []
+      ∃ out, rowColumns E tm ti presentBm nullBm cells allCols.length 0 0 0 = .ok out ∧
+        out.length = allCols.length ∧
+        ∀ i (hi : i < allCols.length), ∃ c, out[i]? = some c ∧ c.field = names[i]! ∧ c.typ = (allCols[i]).1.typ ∧
+          (present[i]! = false → c.col = .absent)) := by
+  intro h
+  have := h ⟨fun _ => [], fun _ => [], fun _ => [], fun _ => 0⟩ [(⟨300, 0, true⟩, false)] [[]] [false] rfl rfl []
+    ⟨rfl, by intro p hp; simp [W.selectPresent] at hp⟩
+  obtain ⟨out, ho, _, hall⟩ := this
+  obtain ⟨c, hc, _, ht, _⟩ := hall 0 (by decide)
+  have e : out = [⟨[], 44, .absent⟩] := by
+    have : Res.ok out = Res.ok [⟨[], 44, .absent⟩] := by rw [← ho]; decide
+    exact Res.ok.inj this
+  subst e
+  simp at hc
+  subst hc
+  simp at ht
 
 /-- A whole rows event decodes to exactly the rows the master encoded: flags, presence bitmaps, row count, and per
     row the NULL bitmaps and the byte-for-byte images — write / update / delete, v1 / v2, 4- / 6-byte table ids, any
@@ -84,7 +164,10 @@ theorem C09_rows_roundtrip (f : Format) (hf : f.headerLength = 19) (hdr : Bytes)
       ∀ i (hi : i < rows.length), ∃ r, rs.rows[i]? = some r ∧
         (k ≠ .write → (r.nullIdentify.data ++ r.identify) = W.imageBytes ((W.selectPresent pb cols).map (·.1)) (rows[i]).1) ∧
         (k ≠ .delete → (r.nullData.data ++ r.data) = W.imageBytes ((W.selectPresent pa cols).map (·.1)) (rows[i]).2) := by
-  sorry
+  have _ := hid   -- not needed: the rows decoder never reads the table id
+  intro tm colDefs
+  exact GV.C09R.rows_roundtrip f hf hdr hh k v2 idw id flags hidw h4 hhs hfl extra hex cols hne hn pb pa hpb hpa
+    rows hrows hwide
 
 /-! non-vacuity -/
 example : W.CellOK 15 300 false (.str [1, 2, 3]) := Or.inl ⟨Or.inl rfl, by decide, by decide⟩
